@@ -218,6 +218,27 @@ def run(ctx):
     res.site(key, True, {"functions_scanned": nscan, "conversions": [h[0].path for h in hits], "verdict": "ok" if not hits else "VIOLATION"})
     if hits:
         res.find(key, hits[0][0].loc(hits[0][1]), "%s builds a char from a single byte / code unit (%s) on a parse path: every non-ASCII character of the text is re-encoded" % (hits[0][0].path.replace("quil_rs::", ""), hits[0][2]), "`DEFFRAME 0 \"µw_drive\"` is stored as the frame `Âµw_drive`")
+    # the identifier token is the text of ALL the pieces the identifier grammar recognised, concatenated in order, with
+    # nothing in between
+    key = "K5|identifier-assembled-from-all-parts"
+    from qv.synq import find_all as _fa6
+
+    lir = [f_ for f_ in syn.fns if f_["name"] == "lex_identifier_raw" and "parser/lexer" in f_["file"]]
+    if len(lir) != 1:
+        res.missing_anchor("lex_identifier_raw")
+    else:
+        clos = [c_ for c_ in _fa6(lir[0]["body"], lambda n: n.get("k") == "closure") if c_.get("params") and c_["params"][0].get("k") == "tuple"]
+        fmts = [m_ for m_ in _fa6(lir[0]["body"], lambda n: n.get("k") == "macro" and n.get("name", "").rsplit("::", 1)[-1] == "format" and "template" in n)]
+        if len(clos) == 1 and len(fmts) == 1:
+            parts = [p_.get("name") for p_ in clos[0]["params"][0]["ps"]]
+            holes = [(pc["hole"].get("name") if "hole" in pc else ("lit", pc.get("lit"))) for pc in fmts[0]["template"]]
+            ok = holes == parts and all(isinstance(h_, str) for h_ in holes)
+            res.site(key, True, {"recognised_parts": parts, "written": [h_ if isinstance(h_, str) else "literal %r" % (h_[1],) for h_ in holes], "verdict": "ok" if ok else "VIOLATION"})
+            if not ok:
+                res.find(key, "%s:%d" % (lir[0]["file"], lir[0]["ln"]), "the identifier token is built from %s although the grammar recognised the parts %s" % ([h_ if isinstance(h_, str) else "literal %r" % (h_[1],) for h_ in holes], parts), "`q0-ro` is stored as `q0`")
+        else:
+            res.site(key, False, {"verdict": "undecided: identifier assembly is not a closure over the recognised parts feeding one format!"})
+            res.undecided.append(key)
     res.count("reachable_local_functions", len(local), floor=300)
     res.explanation = (
         "Taint analysis on MIR: %d calls to case-mapping / normalising std functions exist in the crate, %d of them in the %d parse-reachable functions; "
